@@ -34,15 +34,15 @@ func TestC03(t *testing.T) {
 
 func TestC04(t *testing.T) {
 	runProp(t, "C04", func(t *rapid.T) *core.Case {
-		return drawGeneral(t, gen.Profile{MaxDepth: 3, Focus: "agg", NoBinary: true}, gen.WindowOpts{},
-			gen.DataOpts{Specials: true, MaxSeries: 14})
+		return drawGeneral(t, gen.Profile{MaxDepth: 3, Focus: "agg", NoBinary: true, Nameless: true}, gen.WindowOpts{},
+			gen.DataOpts{Specials: true, MaxSeries: 14, Twins: true})
 	})
 }
 
 func TestC05(t *testing.T) {
 	runProp(t, "C05", func(t *rapid.T) *core.Case {
-		return drawGeneral(t, gen.Profile{MaxDepth: 3, Focus: "binary"}, gen.WindowOpts{},
-			gen.DataOpts{Specials: true, MaxSeries: 10})
+		return drawGeneral(t, gen.Profile{MaxDepth: 3, Focus: "binary", Nameless: true}, gen.WindowOpts{},
+			gen.DataOpts{Specials: true, MaxSeries: 10, Twins: true})
 	})
 }
 
@@ -59,7 +59,8 @@ func TestC06(t *testing.T) {
 		default:
 			p.Focus = "scalar"
 		}
-		return drawGeneral(t, p, gen.WindowOpts{}, gen.DataOpts{Specials: true, MaxSeries: 8, Histogram: true})
+		p.Nameless = true
+		return drawGeneral(t, p, gen.WindowOpts{}, gen.DataOpts{Specials: true, MaxSeries: 8, Histogram: true, Twins: true})
 	})
 }
 
